@@ -26,6 +26,10 @@ Decides:
  (R9) bounds over a multi-column index are approximations ([v] against keys [v, x]): the executor never takes a scan over a
       multi-column index as the whole WHERE clause - every definition that clears need_where_filter while a WHERE clause
       exists is decided by a test on the number of index columns;
+ (R10) index predicates are matched by column NAME: every production caller of cost_based_index_selection /
+      execute_index_scan hands them a WHERE expression that went through a function reading the qualifier of column
+      references (Expression::ColumnRef.table) - never the statement's raw WHERE clause, whose conjuncts may be about
+      another table that has a column of the same name;
  (R7) a bound of a RangePredicate never travels without its inclusiveness flag: every write to .start / .end of an
       existing RangePredicate is accompanied, under the same conditions, by a write to .inclusive_start / .inclusive_end.
 Does NOT decide bound arithmetic (inclusive/exclusive, increments), NULL keys, cost model."""
@@ -310,6 +314,62 @@ def extra_rules(ctx):
 
     range_pairing_rule(ctx, 'C02.R7')
     null_key_rule(ctx)
+    qualifier_rule(ctx)
+
+
+def qualifier_rule(ctx):
+    prog = ctx.prog
+    ctx.rule('C02.R10', 'callers of cost_based_index_selection / execute_index_scan outside the optimizer\'s planning API pass a WHERE argument produced by a function '
+             '(or closure) that reads Expression::ColumnRef.table; the raw where_clause parameter is a finding')
+
+    def reads_qualifier(fn, depth=0):
+        for b in fn.blocks:
+            for st in b['s']:
+                r = repr(st)
+                if 'ColumnRef' in r and "'.table'" in r:
+                    return True
+        if depth < 3:
+            for _i, t in fn.calls():
+                cn = callee_name(t) or ''
+                if cn.startswith('vibesql_executor::'):
+                    for g in prog.by_nice.get(cn, []):
+                        if g.path != fn.path and reads_qualifier(g, depth + 1):
+                            return True
+            for c in prog.children(fn):
+                if reads_qualifier(c, depth + 1):
+                    return True
+        return False
+    n = 0
+    for f in prog.fns.values():
+        if f.unit != 'vibesql_executor' or f.is_closure() or is_test(f) or 'optimizer::index_planner' in f.nice:
+            continue
+        s = None
+        for i, t in f.calls():
+            cn = callee_name(t) or ''
+            if cn.endswith('index_scan::selection::cost_based_index_selection') or cn.endswith('index_scan::execution::execute_index_scan') \
+                    or cn.endswith('::cost_based_index_selection') or cn.endswith('::execute_index_scan'):
+                s = s or Sym(f)
+                pos = 1 if cn.endswith('cost_based_index_selection') else 3
+                if len(t['args']) <= pos:
+                    continue
+                w = s.op(t['args'][pos])
+                n += 1
+                ok = False
+                if w not in ('where_clause',):
+                    for k in re.findall(r'closure#(\d+)', w):
+                        for c in prog.children(f):
+                            if c.nice.endswith('{closure#%s}' % k) and reads_qualifier(c):
+                                ok = True
+                    for name in re.findall(r'([a-z_][a-z_0-9]*)\(', w):
+                        for g in prog.fns.values():
+                            if g.unit == 'vibesql_executor' and g.nice.endswith('::' + name) and reads_qualifier(g):
+                                ok = True
+                key = f'R10/{f.nice.rsplit("::", 1)[1]}/{cn.rsplit("::", 1)[1]}'
+                ctx.instance(key, {'rule': 'C02.R10', 'fn': f.nice, 'where_argument': w[:90], 'restricted_by_qualifier': ok})
+                if not ok:
+                    ctx.finding(key, f'{f.nice} hands `{w[:50]}` to {cn.rsplit("::", 1)[1]}: index predicates are matched by column name, so a conjunct about another '
+                                'table\'s column of the same name (b.k < 15 against an index on a(k)) is applied to this table\'s index', f'{f.file}:{t["l"]}')
+    ctx.floor('C02.R10 callers of the index planner / index scan', n, 2)
 
 
 def null_key_rule(ctx):
